@@ -181,6 +181,8 @@ if "orphan" in limits:
     print(json.dumps({"entries_left": len(kept), "bytes_left": left}))
 else:
     print(json.dumps(kept))
+import shutil
+shutil.rmtree(root, ignore_errors=True)
 '''
 
 
